@@ -2,6 +2,7 @@ package rules
 
 import (
 	"fmt"
+	"os"
 	"go/token"
 	"strings"
 
@@ -700,6 +701,8 @@ func mergePaging(w *load.World, c *core.Collector, props []string) {
 			}
 		}
 	}
+	// the page cut also carries the crash clause of C18 (an unbounded offset must not overflow)
+	props = append(append([]string{}, props...), "C18")
 	if len(probs) > 0 {
 		c.Add("MERGE", "paging", core.Violation, w.At(page), strings.Join(probs, "; "), props...)
 	} else {
@@ -1189,21 +1192,82 @@ func pageBounds(fn *ssa.Function, low, high ssa.Value, isLen func(ssa.Value) boo
 	lo, loC := clamp(low)
 	hi, hiC := clamp(high)
 	var probs []string
-	if !loC || !hiC {
-		probs = append(probs, "a bound of the page is not clamped to the number of results (min(…, len)): an offset beyond the results panics")
-	}
 	if _, arith := lo.(*ssa.BinOp); arith || !hasLabel(lo, "field:Offset") || hasLabel(lo, "field:Limit") {
 		probs = append(probs, "the page does not start at the requested offset")
 	}
-	okHi := false
-	if bo, ok := hi.(*ssa.BinOp); ok && bo.Op == token.ADD {
-		_, ax := bo.X.(*ssa.BinOp)
-		_, ay := bo.Y.(*ssa.BinOp)
-		if !ax && !ay && ((hasLabel(bo.X, "field:Offset") && hasLabel(bo.Y, "field:Limit")) || (hasLabel(bo.Y, "field:Offset") && hasLabel(bo.X, "field:Limit"))) {
-			okHi = true
+	// the offset as it may enter a sum: clamped to the number of results first (the page's own
+	// lower bound, or another min(offset, len)). The request's offset has no upper bound: added to
+	// the limit unclamped, an offset near the largest integer wraps to a negative sum, which passes
+	// min(…, len) and panics in the slice expression.
+	clampedOffset := func(v ssa.Value) bool {
+		if v == low && loC {
+			return true
+		}
+		in, c := clamp(v)
+		_, arith := in.(*ssa.BinOp)
+		return c && !arith && hasLabel(in, "field:Offset") && !hasLabel(in, "field:Limit")
+	}
+	plainLimit := func(v ssa.Value) bool {
+		_, arith := v.(*ssa.BinOp)
+		return !arith && v != low && hasLabel(v, "field:Limit")
+	}
+	rawOffset := func(v ssa.Value) bool {
+		_, arith := v.(*ssa.BinOp)
+		_, c := clamp(v)
+		return !arith && !c && v != low && hasLabel(v, "field:Offset") && !hasLabel(v, "field:Limit")
+	}
+	okHi, overflow := false, false
+	sum := func(v ssa.Value) (x, y ssa.Value, ok bool) {
+		bo, isBo := v.(*ssa.BinOp)
+		if !isBo || bo.Op != token.ADD {
+			return nil, nil, false
+		}
+		return bo.X, bo.Y, true
+	}
+	if x, y, ok := sum(hi); ok && hiC {
+		// min(start + limit, len)
+		for _, pr := range [][2]ssa.Value{{x, y}, {y, x}} {
+			switch {
+			case clampedOffset(pr[0]) && plainLimit(pr[1]):
+				okHi = true
+			case rawOffset(pr[0]) && plainLimit(pr[1]):
+				overflow = true
+			}
+		}
+	} else if x, y, ok := sum(high); ok {
+		// start + min(limit, len - start): never beyond len, no clamp needed
+		for _, pr := range [][2]ssa.Value{{x, y}, {y, x}} {
+			if !clampedOffset(pr[0]) {
+				continue
+			}
+			call, isCall := pr[1].(*ssa.Call)
+			if !isCall {
+				continue
+			}
+			if bi, isBi := call.Call.Value.(*ssa.Builtin); !isBi || bi.Name() != "min" || len(call.Call.Args) != 2 {
+				continue
+			}
+			for _, ar := range [][2]ssa.Value{{call.Call.Args[0], call.Call.Args[1]}, {call.Call.Args[1], call.Call.Args[0]}} {
+				rest, isSub := ar[1].(*ssa.BinOp)
+				if plainLimit(ar[0]) && isSub && rest.Op == token.SUB && isLen(rest.X) && rest.Y == pr[0] {
+					okHi, hiC = true, true
+				}
+			}
 		}
 	}
-	if !okHi {
+	if os.Getenv("SEMA_DEBUG") != "" {
+		fmt.Fprintf(os.Stderr, "pageBounds %s low=%v high=%v lo=%v loC=%v hi=%v hiC=%v okHi=%v\n", fn, low, high, lo, loC, hi, hiC, okHi)
+		if x, y, ok := sum(hi); ok {
+			fmt.Fprintf(os.Stderr, "  x=%v y=%v clampedOffset(x)=%v plainLimit(y)=%v clampedOffset(y)=%v plainLimit(x)=%v Lim(y)=%v Off(y)=%v\n", x, y, clampedOffset(x), plainLimit(y), clampedOffset(y), plainLimit(x), hasLabel(y, "field:Limit"), hasLabel(y, "field:Offset"))
+		}
+	}
+	if !loC || !hiC {
+		probs = append(probs, "a bound of the page is not clamped to the number of results (min(…, len)): an offset beyond the results panics")
+	}
+	switch {
+	case overflow:
+		probs = append(probs, "offset + limit is computed from the unclamped offset: the request's offset has no upper bound, for one near the largest integer the sum wraps to a negative number, passes the clamp and the slice expression panics (on a goroutine without recovery)")
+	case !okHi:
 		probs = append(probs, "the page does not end at offset + limit")
 	}
 	return probs
